@@ -16,7 +16,7 @@ theorem lookup_spelling (g : Graph) (n n' : Bytes) (h : Canon.canon n = Canon.ca
     `-t restat` mode) and nothing after it is looked at. -/
 theorem unknown_rejected (g : Graph) (a : Run.Args) (s : S) (n : Bytes) (ns : List Bytes)
     (hl : Run.lookup g n = .ok none) (had : a.adopt = false) :
-    Run.wantTargets g a s (n :: ns) = .err ("unknown path requested: " ++ stringOfBytes n) := by
+    Run.wantTargets g a s (n :: ns) = .err ("unknown path requested: " ++ stringOfBytes n) s := by
   unfold Run.wantTargets; simp [hl, had]
 
 /-- The manifest itself, named as a target, is not wanted a second time. -/
@@ -28,7 +28,7 @@ theorem manifest_target_skipped (g : Graph) (a : Run.Args) (s : S) (n : Bytes) (
 
 /-- Only builds that were Unknown can be drawn into the wanted set, and only as Want/Ready:
     requesting more targets never disturbs builds that are queued, running or finished. -/
-theorem want_only_adds (g : Graph) (s s' : S) (f : Nat) (h : want g s f = .ok s') (b : Nat) (x : St)
+theorem want_only_adds (g : Graph) (s s' : S) (f : Nat) (h : want g s f = .ok () s') (b : Nat) (x : St)
     (hx : late x) : (s'.st b = x ↔ s.st b = x) :=
   (want_lateEq' g s s' f h).1 b x hx
 
